@@ -1,6 +1,11 @@
 package nharness
 
 import (
+	"crypto/ecdsa"
+	"crypto/ed25519"
+	"crypto/elliptic"
+	"crypto/rand"
+	"crypto/rsa"
 	"fmt"
 	"net"
 	"strings"
@@ -225,6 +230,44 @@ func c09Handshakes(c *core.Ctx) {
 		{"lower-case health user name with the health password", strings.ToLower(config.HealthUser), ssh.Password(config.HealthUser), false},
 		{"mixed-case health user name with the health password", "Dtail-Health", ssh.Password(config.HealthUser), false},
 	}
+	// every key type the SSH library supports, all listed in one authorized-keys file of carol
+	{
+		var file strings.Builder
+		file.WriteString("# carol's keys, one per type\n")
+		type tk struct {
+			name   string
+			signer ssh.Signer
+		}
+		var tks []tk
+		add := func(name string, key interface{}) {
+			s, err := ssh.NewSignerFromKey(key)
+			if err != nil {
+				panic(err)
+			}
+			tks = append(tks, tk{name, s})
+			file.Write(ssh.MarshalAuthorizedKey(s.PublicKey()))
+		}
+		rk, _ := rsa.GenerateKey(rand.Reader, 2048)
+		add("rsa-2048 (rsa-sha2-512 signature)", rk)
+		_, ek, _ := ed25519.GenerateKey(rand.Reader)
+		add("ed25519", ek)
+		for _, cv := range []elliptic.Curve{elliptic.P256(), elliptic.P384(), elliptic.P521()} {
+			k, _ := ecdsa.GenerateKey(cv, rand.Reader)
+			add("ecdsa-"+cv.Params().Name, k)
+		}
+		WriteAuthorizedKeys("carol", file.String())
+		for _, k := range tks {
+			cases = append(cases, hs{"listed key of type " + k.name, "carol", ssh.PublicKeys(k.signer), true})
+		}
+		// the same RSA key signing with each RSA signature algorithm
+		if as, ok := tks[0].signer.(ssh.AlgorithmSigner); ok {
+			for _, alg := range []string{ssh.KeyAlgoRSA, ssh.KeyAlgoRSASHA256, ssh.KeyAlgoRSASHA512} {
+				if ms, err := ssh.NewSignerWithAlgorithms(as, []string{alg}); err == nil {
+					cases = append(cases, hs{"listed rsa key signing with " + alg, "carol", ssh.PublicKeys(ms), true})
+				}
+			}
+		}
+	}
 	for _, h := range cases {
 		cl, err := dial(ts.Addr, h.user, h.auth)
 		got := err == nil
@@ -315,7 +358,7 @@ func init() {
 		Level: "exploration",
 		Rule: "A: authorized_keys files = all sequences of <=3 (quick) / <=4 (thorough) lines over 11 line kinds (rsa/ed25519/ecdsa keys, key with options, key with comment, comment, blank, whitespace, garbage word, CRLF, commented-out key), " +
 			"with/without final newline, x 4 offered keys, through the real verifyAuthorizedKeys: an unlisted key is never accepted, and every key listed in a well-formed file is accepted.  B: the real Server.Callback for 11 user names (incl. case variants of the service users) x 9 passwords x " +
-			"4 source addresses x 4 job configurations: granted <=> health user with the health password, or job user whose password is a configured job name and whose address is on that job's allow list.  C: 9 real SSH handshakes against an " +
+			"4 source addresses x 4 job configurations: granted <=> health user with the health password, or job user whose password is a configured job name and whose address is on that job's allow list.  C: 19 real SSH handshakes (incl. one per key type rsa/ed25519/ecdsa-P256/P384/P521 and per RSA signature algorithm) against an " +
 			"in-process server and 8 commands in a real health session (no file content, session ends).  non-trivial = cases where a grant is expected",
 		Assumptions: []string{"proof of key possession and signature checks are x/crypto/ssh's (trusted)", "net.LookupIP of literal IP addresses needs no resolver"},
 		Serial:      false,
